@@ -105,6 +105,8 @@ def r1(repo, chk):
                     chk.ob("R1", "only authenticated packets extend the idle deadline", bool(decs) and all(fn.before(d, st) for d in decs), "", fn.loc(st))
             else:
                 chk.ob("R1", f"{name}: `{norm(st)[:50]}` is an expected writer of the deadline", False, "unexpected writer of _close_at", fn.loc(st))
+    have = {n for n, _ in seen}
+    chk.ob("R1", "the deadline has all its expected writers (_connect, receive_datagram, _close_begin arm it; _close_end clears it)", {"_connect", "receive_datagram", "_close_begin", "_close_end"} <= have, f"writers found: {sorted(have)}: without the missing one a live connection has no finite timer (or no closing deadline)", "")
     firsts = [s for s in seen if s[0] == "receive_datagram"]
     chk.ob("R1", "receive_datagram has both the first-datagram arming and the per-packet re-arming", len(firsts) == 2, f"{len(firsts)} writes of _close_at in receive_datagram: a server connection whose first datagram is not processed would have no timer", "")
     co = Fn(repo, CONN + "connect")
@@ -162,6 +164,29 @@ def r2(repo, chk):
     for st, t, v in cl.assigns(chain="self._close_pending"):
         at = cl.guard_atoms(st)
         chk.ob("R2", "close() is a no-op once a close is pending or the connection ended", ("self._close_event is None", True) in at and natom("self._state in END_STATES", False) in at, f"guards {at}", cl.loc(st))
+    # every trigger of the property starts (or completes) termination
+    sets = [st for st, t, v in cl.assigns(chain="self._close_event") if isinstance(v, ast.Call) and call_name(v).endswith("ConnectionTerminated")]
+    pend = [st for st, t, v in cl.assigns(chain="self._close_pending") if isinstance(v, ast.Constant) and v.value is True]
+    ok = len(sets) == 1 and len(pend) == 1 and cl.lexical_guards(sets[0], expand=False) == cl.lexical_guards(pend[0], expand=False)
+    chk.ob("R2", "close(): records the termination event and marks the close pending (local close)", ok, "a local close would never be sent / never terminate", cl.loc(cl.node))
+    pc = Fn(repo, CONN + "_handle_connection_close_frame")
+    sets = [st for st, t, v in pc.assigns(chain="self._close_event") if isinstance(v, ast.Call) and call_name(v).endswith("ConnectionTerminated")]
+    cb = [c for c in pc.calls(name="self._close_begin") if norm(get_kw(c, "is_initiator", 0)) == "False"]
+    ok = len(sets) == 1 and len(cb) == 1 and pc.before(sets[0], cb[0]) and pc.lexical_guards(cb[0], expand=False) == [("self._close_event is None", True)]
+    chk.ob("R2", "_handle_connection_close_frame: a peer close records the event and starts the draining period", ok, "a peer close would leave the connection open until the idle timeout", pc.loc(pc.node))
+    ht0 = Fn(repo, CONN + "handle_timer")
+    ends = ht0.calls(name="self._close_end")
+    sets = [st for st, t, v in ht0.assigns(chain="self._close_event") if isinstance(v, ast.Call) and call_name(v).endswith("ConnectionTerminated")]
+    ok = len(ends) == 1 and ht0.lexical_guards(ends[0], expand=False) == [natom("now >= self._close_at")] and len(sets) == 1 and sets[0].lineno < ends[0].lineno and ht0.lexical_guards(sets[0], expand=False) == [("self._close_event is None", True), natom("now >= self._close_at")]
+    chk.ob("R2", "handle_timer: at the close / idle deadline the event is recorded (idle timeout if none) and _close_end() runs unconditionally", ok, f"guards of _close_end {[ht0.lexical_guards(e, expand=False) for e in ends]}", ht0.loc(ht0.node))
+    cbg = Fn(repo, CONN + "_close_begin")
+    sts = {norm(c.args[0]) for c in cbg.calls(name="self._set_state") if c.args}
+    chk.ob("R2", "_close_begin enters CLOSING (initiator) or DRAINING", sts == {"QuicConnectionState.CLOSING", "QuicConnectionState.DRAINING"}, f"{sorted(sts)}", cbg.loc(cbg.node))
+    gt = Fn(repo, CONN + "get_timer")
+    for st, t, v in gt.assigns(chain="timer_at"):
+        lg = gt.lexical_guards(st, expand=False)
+        bad = [a for a in lg if "END_STATES" in a[0] and a != natom("self._state in END_STATES", False)]
+        chk.ob("R2", f"get_timer: `{norm(st)}` is considered while the connection is live (not only in an end state)", not bad, f"{bad}", gt.loc(st)) if any("END_STATES" in a[0] for a in lg) else None
     ht = Fn(repo, CONN + "handle_timer")
     ld = ht.calls(name="self._loss.on_loss_detection_timeout")
     ok = bool(ld) and all(natom("now >= self._close_at", False) in ht.guard_atoms(c) for c in ld)
